@@ -254,7 +254,7 @@ func c14(ctx *Ctx) (*Outcome, error) {
 		}
 		cases = append(cases, c)
 	}
-	for i := 0; i < ctx.N(36, 144); i++ {
+	for i := 0; i < ctx.N(72, 288); i++ {
 		cases = append(cases, collisionTripleCase(i, sg.NewRng(ctx.Seed, fmt.Sprintf("C14-triple-%d", i))))
 	}
 	for i := 0; i < ctx.N(32, 160); i++ {
@@ -273,11 +273,32 @@ func c14(ctx *Ctx) (*Outcome, error) {
 	cfg := &sem.Config{Prop: "C14", Tier: ctx.Tier, Seed: ctx.Seed, Cases: cases, Classes: docgen.Classes{"delopt": true, "required": true, "type": true}, Valid: 5, PerSite: 2, MaxDocs: 60,
 		Env: ctx.Env, Values: true, RootTypeFromOutput: true}
 	// AST census: field names distinct per struct, every tag key carries exactly the property name
-	fieldsSeen, tagBad := 0, 0
+	fieldsSeen, tagBad, dupKnown := 0, 0, 0
 	var cviol []Viol
 	cfg.AfterBatch = func(cases []*sem.Case) {
 		for _, c := range cases {
 			p := sem.ProgramOf(c)
+			if p != nil && p.Report != nil && p.Report.File != nil && c.Witness == "" {
+				// distinct schema types have distinct Go names: no type is declared twice (also judged on files that
+				// do not type-check - a duplicate is exactly why they would not)
+				seenT := map[string]bool{}
+				for _, tn := range gocheck.TypeNames(p.Report.File) {
+					if seenT[tn] {
+						if ctx.Known.Has("nested-collision-duplicate-type") && len(collidingDefRefs(c.Root)) > 0 {
+							dupKnown++
+							continue
+						}
+						tagBad++
+						if len(cviol) < 5 {
+							b, _ := json.MarshalIndent(map[string]any{"property": "C14", "kind": "ast-census", "problem": "type " + tn + " declared twice", "schema": json.RawMessage(jsonx.Marshal(c.Root.ToJSON())), "args": c.Args, "emitted": string(p.Src)}, "", " ")
+							path := filepath.Join(evid.ReplayDir(), fmt.Sprintf("C14-census-%d.json", len(cviol)))
+							_ = os.WriteFile(path, b, 0o644)
+							cviol = append(cviol, Viol{Replay: path, Summary: fmt.Sprintf("AST census: type %s is declared twice (two schema types share one Go name)\n schema=%s", tn, trunc(string(jsonx.Marshal(c.Root.ToJSON())), 500))})
+						}
+					}
+					seenT[tn] = true
+				}
+			}
 			if p == nil || !p.Usable() || c.Witness != "" {
 				continue
 			}
@@ -350,6 +371,7 @@ func c14(ctx *Ctx) (*Outcome, error) {
 	o.Coverage["identifierize_samples"] = idSamples
 	o.Coverage["ast_fields_checked"] = fieldsSeen
 	o.Coverage["ast_census_violations"] = tagBad
+	o.Coverage["duplicate_type_declarations_explained_by_recorded_finding"] = dupKnown
 	o.Coverage["evaluations"] = rep.Decided + calls
 	o.Coverage["distinct_nontrivial"] = len(rep.Sigs) + shapes
 	o.Violations = append(append(idViols, cviol...), o.Violations...)
